@@ -48,7 +48,7 @@ from .. import regexq
 from ..loader import Sym, Unfoldable
 from ..astutil import argn, names_loaded, names_stored, assigned_value
 from .common import (cfg_of, fkey, conds, has_cond, cond_texts, stmts_of, walk_body, call_tail, call_name, returns_of,
-                     raises_of, raise_type, stmt_of, kwarg, protected_by, implies_absent)
+                     raises_of, raise_type, stmt_of, kwarg, protected_by, implies_absent, handler_reraises_always)
 from ..cfg import enclosing_tries
 
 ROUTE = 'clastic.route'
@@ -328,6 +328,13 @@ class _SymExec(object):
                 base = a.value if isinstance(a, ast.Subscript) and isinstance(a.slice, ast.Slice) else a
                 if _toks(sepv) is not None and isinstance(base, ast.Name):
                     return ('s', (('join', _toks(sepv), norm(a)),))
+                if _toks(sepv) is not None and isinstance(a, (ast.List, ast.Tuple)) and not any(isinstance(x, ast.Starred) for x in a.elts):
+                    parts = []          # ''.join(['^', body, tail, '$'])
+                    for i, x in enumerate(a.elts):
+                        if i:
+                            parts.append(sepv)
+                        parts.append(self.ev(x, env))
+                    return _concat(*parts) if parts else _lit('')
                 return ('?', short(e, 40))
             if isinstance(f, ast.Attribute) and f.attr == 'format':
                 return self._format(e, env)
@@ -661,9 +668,21 @@ def _roles(rep):
     if len(fmt_calls) != 1:
         raise AnalysisError('_compile_path_pattern: _SEG_TMPL.format call not found')
     R.fc = fmt_calls[0]
-    if R.fc.args or any(k.arg is None for k in R.fc.keywords):
-        raise AnalysisError('_compile_path_pattern: _SEG_TMPL.format is not called with plain keyword arguments')
-    R.kw = dict((k.arg, k.value) for k in R.fc.keywords)
+    if R.fc.args:
+        raise AnalysisError('_compile_path_pattern: _SEG_TMPL.format is not called with keyword arguments')
+    R.kw = {}
+    for k in R.fc.keywords:
+        if k.arg is not None:
+            R.kw[k.arg] = k.value
+            continue
+        # _SEG_TMPL.format(**fields) with fields = dict(name=..., ...) / {'name': ..., ...} bound once
+        d = _single_def(cp, k.value.id) if isinstance(k.value, ast.Name) else k.value
+        if isinstance(d, ast.Dict) and all(isinstance(x, ast.Constant) and isinstance(x.value, str) for x in d.keys):
+            R.kw.update((x.value, v) for x, v in zip(d.keys, d.values))
+        elif isinstance(d, ast.Call) and norm(d.func) == 'dict' and not d.args and all(x.arg for x in d.keywords):
+            R.kw.update((x.arg, x.value) for x in d.keywords)
+        else:
+            raise AnalysisError('_compile_path_pattern: the fields given to _SEG_TMPL.format cannot be told statically')
     R.kwt = dict((k, norm(v)) for k, v in R.kw.items())
     R.opvar = R.kwt.get('arity') if isinstance(R.kw.get('arity'), ast.Name) else None
     # table lookups: table name -> [(Subscript node, key text, local it is bound to)]
@@ -731,6 +750,9 @@ def _rule_b(rep, R, tabs):
         sorted([norm(t.left), norm(t.comparators[0])]) == sorted([str(opvar), "':'"])
     norm_st = [s for s in stmts_of(cp.node) if isinstance(s, ast.Assign) and len(s.targets) == 1 and norm(s.targets[0]) == opvar and isinstance(s.value, ast.Constant)
                and s.value.value == '' and has_cond(conds(cp, s), is_colon, True)]
+    # ... or through an alias table:  op = ALIASES.get(op, op)  with ALIASES == {':': ''}
+    norm_st += [s for s in stmts_of(cp.node) if isinstance(s, ast.Assign) and len(s.targets) == 1 and norm(s.targets[0]) == opvar and
+                _alias_lookup(rep.repo, route, cp, s.value, opvar) == {':': ''}]
     users = [stmt_of(route, node) for node, key, var in op_lookups] + [stmt_of(route, R.fc)]
     ok = opvar is not None and len(norm_st) == 1 and bool(op_lookups) and \
         all(ccfg.must_pass(ccfg.nodes_of(norm_st[0]) + [n.id for n in ccfg.nodes if n.kind == 'branch' and is_colon(n.test) and n.pol is False],
@@ -779,15 +801,44 @@ def _rule_c(rep, R):
     VCM, pvar = R.vcm, R.pvar
     rz = [r for r in raises_of(cp) if raise_type(r) == 'InvalidPattern']
     found = {}
+    families = {'unknown type': TYPE_TABLES, 'unknown operator': OP_TABLES}
+
+    def membership(t, tables):
+        """('in' | 'notin', key text) for ``key in TABLE`` / ``key not in TABLE`` over one of the tables"""
+        if isinstance(t, ast.Compare) and len(t.ops) == 1 and isinstance(t.ops[0], (ast.In, ast.NotIn)) and norm(t.comparators[0]) in tables:
+            return ('in' if isinstance(t.ops[0], ast.In) else 'notin'), norm(t.left)
+        return None, None
+
+    def absent_from(cs, tables):
+        for t, pol in cs:
+            k, key = membership(t, tables)
+            if (k == 'notin' and pol is True) or (k == 'in' and pol is False):
+                return key
+        return None
+
+    def present_in(cs, tables):
+        return [membership(t, tables)[1] for t, pol in cs if (membership(t, tables)[0] == 'in' and pol is True) or
+                (membership(t, tables)[0] == 'notin' and pol is False)]
+
+    def rejecting_handler(node):
+        """the KeyError handler protecting ``node`` when every path through it raises InvalidPattern"""
+        h = protected_by(cp, node, 'KeyError')
+        if h is None or not handler_reraises_always(cp, h):
+            return None
+        rs = [x for x in ast.walk(h) if isinstance(x, ast.Raise)]
+        return h if rs and all(raise_type(x) == 'InvalidPattern' for x in rs) else None
     for r in rz:
         cs = conds(cp, r)
         tries = [(t, part) for t, part in enclosing_tries(route, r, cp.node)]
         in_handler = [h for t, part in tries if part == 'handler' for h in t.handlers if r in list(ast.walk(h))]
-        if has_cond(cs, lambda t: norm(t) == "%s.startswith('/')" % pvar, False):
+        if has_cond(cs, lambda t: norm(t) == "%s.startswith('/')" % pvar, False) or \
+                has_cond(cs, lambda t: norm(t) in ("%s[:1] != '/'" % pvar, "%s[0:1] != '/'" % pvar), True) or \
+                has_cond(cs, lambda t: norm(t) in ("%s[:1] == '/'" % pvar, "%s[0:1] == '/'" % pvar), False):
             found['leading slash'] = r
-        elif has_cond(cs, lambda t: norm(t) == "'//' in %s" % pvar, True):
+        elif has_cond(cs, lambda t: norm(t) == "'//' in %s" % pvar, True) or has_cond(cs, lambda t: norm(t) == "'//' not in %s" % pvar, False):
             found["'//'"] = r
-        elif has_cond(cs, lambda t: isinstance(t, ast.Compare) and len(t.ops) == 1 and isinstance(t.ops[0], ast.In) and norm(t.comparators[0]) == VCM, True):
+        elif has_cond(cs, lambda t: isinstance(t, ast.Compare) and len(t.ops) == 1 and isinstance(t.ops[0], ast.In) and norm(t.comparators[0]) == VCM, True) or \
+                has_cond(cs, lambda t: isinstance(t, ast.Compare) and len(t.ops) == 1 and isinstance(t.ops[0], ast.NotIn) and norm(t.comparators[0]) == VCM, False):
             found['duplicate binding'] = r
         elif in_handler and in_handler[0].type is not None and 'KeyError' in norm(in_handler[0].type):
             tr = [t for t, part in tries if part == 'handler'][0]
@@ -796,9 +847,36 @@ def _rule_c(rep, R):
                 found['unknown type'] = r
             elif '_OP_ARITY_MAP[' in body or '_OP_OPTIONALITY_MAP[' in body:
                 found['unknown operator'] = r
+        else:
+            # membership guard:  if key not in TABLE: raise InvalidPattern(...)
+            for label, tables in sorted(families.items()):
+                if absent_from(cs, tables) is not None:
+                    found[label] = r
     for label in ('leading slash', "'//'", 'duplicate binding', 'unknown type', 'unknown operator'):
         rep.check('R05.c', fkey(cp, 'rejects: ' + label), label in found, 'InvalidPattern is raised for: %s' % label if label in found else
                   'no guarded "raise InvalidPattern" for: %s' % label, route, found.get(label, cp.node))
+    # every table lookup can only fail as InvalidPattern: it runs under a KeyError handler that always raises InvalidPattern, or after a
+    # membership test of the same key, or after such a lookup of the same key in the sister table (both tables have the same keys:
+    # R05.a registration / R05.b operator tables keys)
+    ccfg = R.cfg
+    start = ccfg.nodes_of(R.loop) if R.loop is not None and ccfg.nodes_of(R.loop) else ccfg.entry
+    for label, tables in sorted(families.items()):
+        looks = [(node, key) for tab in tables for node, key, var in R.lookups.get(tab, [])]
+        safe = [(node, key) for node, key in looks if rejecting_handler(node) is not None or key in present_in(conds(cp, node), tables)]
+        todo = [x for x in looks if x not in safe]
+        progress = True
+        while todo and progress:
+            progress = False
+            for node, key in list(todo):
+                cover = [n for other, k2 in safe if k2 == key for n in ccfg.nodes_of(stmt_of(route, other)) if stmt_of(route, other) is not stmt_of(route, node)]
+                if cover and ccfg.must_pass(cover, start, ccfg.nodes_of(stmt_of(route, node)), normal_only=True):
+                    safe.append((node, key))
+                    todo.remove((node, key))
+                    progress = True
+        ok = bool(looks) and not todo
+        rep.check('R05.c', fkey(cp, 'lookups guarded: ' + label), ok, 'every lookup in %s fails as InvalidPattern' % ' / '.join(tables) if ok else
+                  'a lookup in %s can raise a bare KeyError (not under the rejecting handler / membership test): %s' %
+                  (' / '.join(tables), short(stmt_of(route, todo[0][0]), 60) if todo else 'no lookup found'), route, todo[0][0] if todo else cp.node)
     dup_store = [s for s in stmts_of(cp.node) if isinstance(s, ast.Assign) and norm(s.targets[0]).startswith(VCM + '[')]
     ok = len(dup_store) == 1 and 'duplicate binding' in found
     rep.check('R05.c', fkey(cp, 'bindings recorded'), ok, 'every binding is recorded, so a second use of the name is seen' if ok else
@@ -815,7 +893,7 @@ def _rule_c(rep, R):
     k, m, ip = repo.resolve(route, 'InvalidPattern')
     ok = k == 'class' and repo.is_subclass(ip, 'ValueError')
     rep.check('R05.c', '%s::InvalidPattern' % ROUTE, ok, 'InvalidPattern is a ValueError' if ok else 'InvalidPattern is no longer a ValueError', route)
-    rep.floor('R05.c', 8)
+    rep.floor('R05.c', 10)
 
 
 # ---- R05.d ------------------------------------------------------------------------------------------
@@ -1026,10 +1104,23 @@ def _group_of(R, e, depth=0):
     if isinstance(e, ast.Call) and isinstance(e.func, ast.Attribute) and e.func.attr == 'group' and len(e.args) == 1 and not e.keywords and \
             isinstance(e.args[0], ast.Constant) and isinstance(e.args[0].value, str) and is_match(e.func.value):
         return e.args[0].value
+    if isinstance(e, ast.Call) and isinstance(e.func, ast.Attribute) and e.func.attr == 'get' and len(e.args) == 1 and not e.keywords and \
+            isinstance(e.args[0], ast.Constant) and isinstance(e.args[0].value, str) and is_groupdict(e.func.value):
+        return e.args[0].value
     if isinstance(e, ast.Name) and depth < 4:
         v = _single_def(cp, e.id)
         if v is not None:
             return _group_of(R, v, depth + 1)
+    return None
+
+
+def _alias_lookup(repo, mod, fi, e, var):
+    """The folded table D of ``D.get(var, var)`` (D a module-level constant), else None."""
+    if isinstance(e, ast.Call) and isinstance(e.func, ast.Attribute) and e.func.attr == 'get' and len(e.args) == 2 and not e.keywords and \
+            norm(e.args[0]) == var and norm(e.args[1]) == var and isinstance(e.func.value, ast.Name) and \
+            e.func.value.id not in _all_params(fi) and not _stores(fi.node, e.func.value.id):
+        d = repo.try_fold(e.func.value, mod, default=None)
+        return d if isinstance(d, dict) else None
     return None
 
 
@@ -1040,6 +1131,10 @@ def _var_sources(R, var):
     for st, val in _defs(R.cp, var):
         if val is None:
             sources.append((st, None))
+        elif isinstance(val, ast.Name) and val.id == var:
+            continue                       # x = x (the else-arm of a normalised conditional expression)
+        elif _alias_lookup(R.route.repo, R.route, R.cp, val, var) is not None:
+            consts.append((st, None, 'alias'))
         elif isinstance(val, ast.Constant) and isinstance(val.value, str):
             consts.append((st, val.value, 'assign'))
         elif isinstance(val, ast.BoolOp) and isinstance(val.op, ast.Or) and len(val.values) == 2 and \
@@ -1059,7 +1154,7 @@ def _rule_e_bindings(rep, R, convs, pats):
     if T is None:
         raise AnalysisError('_compile_path_pattern: the variable holding the type name was not found (key of the TYPE_*_MAP lookups)')
     srcs, consts = _var_sources(R, T)
-    dflt = [c for c in consts if c[2] == 'or' or has_cond(conds(cp, c[0]), lambda t: norm(t) == T, False)]
+    dflt = [c for c in consts if c[2] == 'or' or (c[2] == 'assign' and implies_absent(conds(cp, c[0]), T))]
     if convs is not None:
         ok = len(dflt) == 1 and len(consts) == 1 and dflt[0][1] in convs and convs[dflt[0][1]][1] == pats['_STR_PATTERN']
         rep.check('R05.e', fkey(cp, 'default type'), ok, 'a binding without a type is a string binding' if ok else 'the default binding type is not a registered string type', route,
